@@ -254,3 +254,14 @@ func Lock(site int, try func() bool, lock func()) {
 		Park(KLockWait, site, 0, 0, 0, nil)
 	}
 }
+
+// Counter is a tally that harness code running on simulated goroutines can
+// bump without creating a happens-before edge between them (no atomics, not
+// seen by the race detector). Execution is serialised by the controller.
+type Counter struct{ n int64 }
+
+//go:norace
+func (c *Counter) Inc() { c.n++ }
+
+//go:norace
+func (c *Counter) Load() int64 { return c.n }
